@@ -51,7 +51,7 @@ CHECKS = {
  "C12": dict(cat="model_checking", design="3/C12", technique="TLA+ acceptors: KWN_Trace.tla judges the growth-sign law on every step of the precipitation suite; Scan.tla (a latch + order machine) judges ordered Gibbs-Thomson and supersaturation scans of the real Al-Zr database",
              text="Partial claim. Decided: growth-sign law (larger than the critical radius grows, smaller shrinks) on every step of every suite run with a fresh lookup table; on the real database the unstable sentinel is upward closed, x_alpha(g) is non-decreasing, dG(x_alpha(g)) = g within the documented offset, dG rises with supersaturation, changes sign at the planar solvus and the four methods agree in sign away from it.",
              note="real-valued relations as lt/eq/gt under fixed tolerances; scripted closure for the precipitation states; value agreement of the four methods for a stoichiometric precipitate not decided"),
- "C14": dict(cat="model_checking", design="3/C14", technique="TLA+ model of the cached geometric factors (NucParams.tla) checked by TLC over all setter/read histories, bound by history replay against fresh objects; KWN_Trace.tla for zero nucleation at non-positive driving force in runs; Sites.tla (site pools per kind of site shared by all phases of that kind, model-checked over all short occupy/dissolve/re-site histories) bound by Sites_Trace.tla to snapshots of the real _calcNucleationSites; Relations.tla acceptor for zero-propagation, clamps and Clemm-Fisher relations",
+ "C14": dict(cat="model_checking", design="3/C14", technique="TLA+ model of the cached geometric factors (NucParams.tla) checked by TLC over all setter/read histories, bound by history replay against fresh objects; KWN_Trace.tla for zero nucleation at non-positive driving force in runs; Sites.tla (site pools per kind of site shared by all phases of that kind, model-checked over all short occupy/dissolve/re-site histories) bound by Sites_Trace.tla to snapshots of the real _calcNucleationSites; SitePools.tla (the pools as cached functions of molar volume, composition, grain size and dislocation density, user-defined bulk density) bound by SitePools_Trace.tla to real MatrixParameters histories; Relations.tla acceptor for zero-propagation, clamps and Clemm-Fisher relations",
              text="Partial claim. Decided: cached factors follow every change (all read-set-read triples + seeded histories, direct and through PrecipitateParameters), rate = 0 whenever dG <= 0 on every step of the suite, zero propagation / Rcrit >= Rmin / incubation factor in [0,1] / scalar = array on a dG grid for 5 site types, available sites = max(pool of the phase's kind of site - occupation by all phases of that kind + parent surface, 0) in integer milli-units for 11 site assignments x 3 parent relations (hence non-negative, shared, non-increasing with occupation by any phase of the kind). Observed under fixed tolerances: Clemm-Fisher identities and monotonicities on a k-grid.",
              note="identities/monotonicities in k and dG are real-analytic facts judged as lt/eq/gt (observation level); known finding: negative barrier on grain-boundary-type sites under the minimum-radius clamp"),
  "C15": dict(cat="model_checking", design="3/C15", technique="TLA+ state machine of the ShapeFactor object (Shape.tla: description, aspect-ratio mode, finder, callbacks) checked by TLC over all short setter/query histories and bound by trace validation (Shape_Trace.tla) of every history of the same alphabet on real objects; the critical-radius bisection transcribed over exact rationals (Bisect.tla), its root property checked by TLC on a lattice and the real method bound by TLC-as-evaluator equality (same radius, same number of halvings); Relations.tla acceptor for the geometric identities",
